@@ -279,6 +279,23 @@ func gen(r *prng.R, f proto.Flags, emit func(proto.Case)) {
 			emit(proto.Case{ID: fmt.Sprintf("e%d", id), Ops: ops})
 		})
 	}
+	// (1b) three stores, then the three pending sleepers released in every order (indices 0..2, 27 sequences),
+	//      reading both keys after every release: the stale sleepers of overwritten entries fire before/after.
+	sets := []string{"set k=a v=x ttl8=1", "set k=a v=yy ttl8=1", "set k=b v=x ttl8=2"}
+	for _, gap := range []string{"skip d=125000000", "skip d=125000001", "skip d=1"} {
+		enumerate(sets, 3, func(st []string) {
+			stores := append([]string{}, st...)
+			enumerate([]string{"fire i=0", "fire i=1", "fire i=2"}, 3, func(fs []string) {
+				id++
+				ops := []string{fmt.Sprintf("cfg cache t0=%d max=12", t0base+1), stores[0], gap, stores[1], gap, stores[2],
+					"get k=a", "get k=b", "skip d=250000000", "probe"}
+				for _, f := range fs {
+					ops = append(ops, f, "get k=a", "get k=b", "probe")
+				}
+				emit(proto.Case{ID: fmt.Sprintf("s%d", id), Ops: ops})
+			})
+		})
+	}
 	// (2) throttling, relative and absolute: every sequence of 5 over 8 letters around one Retry-After.
 	for _, ty := range []string{"rel", "abs"} {
 		ra := "1"
